@@ -113,6 +113,16 @@ func c08R8(p *core.Prog, r *core.Report, rule string) {
 							}
 						}
 					}
+					// the marks are collected in a list of digests (returned to the caller, which fills the set)
+					if bi, isB := x.Call.Value.(*ssa.Builtin); isB && bi.Name() == "append" && len(x.Call.Args) == 2 {
+						if sl, isSl := x.Type().Underlying().(*types.Slice); isSl && isStringType(sl.Elem()) {
+							for _, el := range variadicElems(x.Call.Args[1]) {
+								if fromList(el) {
+									marks = append(marks, x)
+								}
+							}
+						}
+					}
 				}
 			}
 		}
@@ -132,7 +142,12 @@ func c08R8(p *core.Prog, r *core.Report, rule string) {
 				return
 			}
 			res := g.Signature.Results()
-			if res.Len() == 0 || !isErrType(res.At(res.Len()-1).Type()) {
+			if res.Len() == 0 {
+				return
+			}
+			// a loader answers with an error, or with the manifest and whether it could be loaded
+			lastT := res.At(res.Len() - 1).Type()
+			if !isErrType(lastT) && !(res.Len() == 2 && core.IsModNamed(res.At(0).Type(), "types/manifest", "Manifest") && types.Identical(lastT, types.Typ[types.Bool])) {
 				return
 			}
 			loads := false
@@ -157,9 +172,10 @@ func c08R8(p *core.Prog, r *core.Report, rule string) {
 					for _, ifi := range core.ControlDeps(mu) {
 						cnd, _ := core.StripNot(ifi.Cond, true)
 						if x, _, isNil := errCmpNil(cnd); isNil {
-							for _, oc := range originCalls(x) {
-								dep = dep || oc == call
-							}
+							cnd = x
+						}
+						for _, oc := range originCalls(cnd) {
+							dep = dep || oc == call
 						}
 					}
 					if !dep {
@@ -632,7 +648,35 @@ func c08R2(p *core.Prog, r *core.Report, rule string) {
 					// must be guarded by locks > 0
 					ok = anyGuard(fs.Store.Block(), func(c ssa.Value, pol bool) bool {
 						b2, isB := c.(*ssa.BinOp)
-						return isB && pol && b2.Op == token.GTR && fieldLoadSame(b2.X, g.st, g.lockF)
+						if !isB {
+							return false
+						}
+						// `locks > 0` in any of its spellings, on the edge where it holds
+						x, y, op := b2.X, b2.Y, b2.Op
+						if _, xConst := x.(*ssa.Const); xConst {
+							x, y = y, x
+							switch op {
+							case token.LSS:
+								op = token.GTR
+							case token.GTR:
+								op = token.LSS
+							case token.LEQ:
+								op = token.GEQ
+							case token.GEQ:
+								op = token.LEQ
+							}
+						}
+						k, isK := core.ConstInt(y)
+						if !isK || !fieldLoadSame(x, g.st, g.lockF) {
+							return false
+						}
+						switch {
+						case op == token.GTR && k == 0, op == token.GEQ && k == 1:
+							return pol
+						case op == token.LEQ && k == 0, op == token.LSS && k == 1:
+							return !pol
+						}
+						return false
 					})
 				}
 			}
